@@ -23,8 +23,8 @@ META = {
     "level_note": "Trusts Python's special-method dispatch (dunder lookup bypasses __getattribute__ on the type). "
     "User subclasses of Undefined are outside the claim.",
 }
-META["technique"] += '; narrowing-before-use dataflow for values that may be Undefined (context.resolve and lambda results); operand-normalisation dominance in the comparison helpers; presence-by-key rule on the lookup functions'
-META["level_text"] += " Also decided, as necessary conditions of the second sentence (R4b, R5, R6): values that may be an Undefined of the configured class are narrowed before they are compared, hashed or stringified; _eq/_lt/_contains resolve __liquid__() before Python comparison can consult an undefined operand's own __eq__; lookups decide 'missing' from the failed key, never from a nil/false value."
+META["technique"] += '; narrowing-before-use dataflow for values that may be Undefined (context.resolve); operand-normalisation dominance in the comparison helpers; presence-by-key rule on the lookup functions'
+META["level_text"] += " Also decided, as necessary conditions of the second sentence (R5, R6): _eq/_lt/_contains resolve __liquid__() before Python comparison can consult an undefined operand's own __eq__; lookups decide 'missing' from the failed key, never from a nil/false value."
 META["technique"] += "; sibling agreement between the undefined classes (a relaxed hook must have the default's body, operands of and/or chains compared as sets)"
 META["level_text"] += " Also decided (R8): every hook that a strict undefined class answers without raising answers exactly as the default Undefined does."
 
@@ -365,84 +365,9 @@ def run(prog: Program, res: Result) -> None:  # noqa: PLR0912, PLR0915
     res.stats["C16.R4.hazardous_uses_examined"] = n_res
 
     # ------------------------------------------------------------------ R4b lambda results
-    res.rule("C16.R4b", "a value produced by <lambda>.map(context, …) may be an Undefined of the configured class: filters compare, hash, stringify or order it only after an is_undefined() narrowing (each undefined class has its own __eq__/__hash__/__str__, so an un-narrowed use makes the result depend on the policy)")
-    n_lam = 0
-    for fi in prog.all_functions():
-        bound: dict[str, ast.AST] = {}
-        for n in ast.walk(fi.node):
-            it = tgt = None
-            if isinstance(n, (ast.For, ast.AsyncFor, ast.comprehension)):
-                it, tgt = n.iter, n.target
-            if it is None or not any(isinstance(c, ast.Call) and isinstance(c.func, ast.Attribute) and c.func.attr == "map" and c.args and norm(c.args[0]) == "context" for c in ast.walk(it)):
-                continue
-            # zip(left, key.map(...)) / enumerate(key.map(...)): the element that comes from the map call
-            names: list[str] = []
-            if isinstance(tgt, ast.Name):
-                names = [tgt.id]
-            elif isinstance(tgt, ast.Tuple) and isinstance(it, ast.Call) and isinstance(it.func, ast.Name) and it.func.id == "zip":
-                for i, a in enumerate(it.args):
-                    if any(isinstance(c, ast.Call) and isinstance(c.func, ast.Attribute) and c.func.attr == "map" for c in ast.walk(a)) and i < len(tgt.elts) and isinstance(tgt.elts[i], ast.Name):
-                        names.append(tgt.elts[i].id)
-            elif isinstance(tgt, ast.Tuple) and isinstance(it, ast.Call) and isinstance(it.func, ast.Name) and it.func.id == "enumerate" and len(tgt.elts) == 2 and isinstance(tgt.elts[1], ast.Name):
-                names = [tgt.elts[1].id]
-            for nm in names:
-                bound[nm] = n
-        if not bound:
-            continue
-        for v, binder in sorted(bound.items()):
-            scope_root = binder if isinstance(binder, (ast.For, ast.AsyncFor)) else fi.module.parent(binder)
-            for use in ast.walk(scope_root if scope_root is not None else fi.node):
-                if not (isinstance(use, ast.Name) and use.id == v and isinstance(use.ctx, ast.Load)):
-                    continue
-                par = fi.module.parent(use)
-                hazard = None
-                if isinstance(par, ast.Call) and isinstance(par.func, ast.Name) and par.func.id in ("is_undefined", "isinstance", "is_truthy") and par.args and par.args[0] is use:
-                    continue
-                if isinstance(par, ast.Compare) and not all(isinstance(o, (ast.Is, ast.IsNot)) for o in par.ops):
-                    hazard = "compared (==/in call the undefined class's __eq__)"
-                elif isinstance(par, ast.Call) and isinstance(par.func, ast.Name) and par.func.id in ("str", "hash", "repr", "len", "int", "float", "sorted", "min", "max") and use in par.args:
-                    hazard = f"passed to {par.func.id}()"
-                elif isinstance(par, ast.Call) and isinstance(par.func, ast.Attribute) and par.func.attr in ("add", "index", "count", "remove", "lower", "upper") and (use in par.args or par.func.value is use):
-                    hazard = f"hashed/compared through .{par.func.attr}()"
-                elif isinstance(par, ast.Attribute) and par.value is use:
-                    hazard = f"used as `{norm(par)}`"
-                elif isinstance(par, ast.Subscript) and par.slice is use and not isinstance(par.ctx, ast.Store):
-                    hazard = "used as a lookup key"
-                elif isinstance(par, ast.FormattedValue):
-                    hazard = "formatted into a string"
-                if hazard is None:
-                    continue
-                n_lam += 1
-                site = f"{fi.file}:{use.lineno} {fi.qualname}"
-                what = f"lambda result `{v}` is {hazard.split(' (')[0]} only after is_undefined()"
-                ok = None
-                child: ast.AST = use
-                for a in fi.module.ancestors(use):
-                    if isinstance(a, ast.IfExp):
-                        t = norm(a.test)
-                        if (t == f"is_undefined({v})" and any(child is x for x in ast.walk(a.orelse))) or (t == f"not is_undefined({v})" and any(child is x for x in ast.walk(a.body))):
-                            ok = f"`{t}` selects the other arm"
-                    if isinstance(a, ast.BoolOp) and isinstance(a.op, ast.And):
-                        idx = next((i for i, x in enumerate(a.values) if any(child is y for y in ast.walk(x))), None)
-                        if idx and any(norm(x) == f"not is_undefined({v})" for x in a.values[:idx]):
-                            ok = "after `not is_undefined(…) and`"
-                    if isinstance(a, ast.If):
-                        t = norm(a.test)
-                        if (t == f"not is_undefined({v})" and any(child is x for b in a.body for x in ast.walk(b))) or (t == f"is_undefined({v})" and any(child is x for b in a.orelse for x in ast.walk(b))):
-                            ok = f"inside `if {t}`"
-                    if isinstance(a, (ast.ListComp, ast.SetComp, ast.GeneratorExp, ast.DictComp)):
-                        for g in a.generators:
-                            if any(f"not is_undefined({v})" in norm(c) for c in g.ifs) and not any(child is x for c in g.ifs for x in ast.walk(c)):
-                                ok = "comprehension filtered by `not is_undefined(…)`"
-                    if ok or a is fi.node:
-                        break
-                    child = a
-                if ok:
-                    res.ok("C16.R4b", site, what, ok)
-                else:
-                    res.fail("C16.R4b", file=fi.file, line=use.lineno, qualname=fi.qualname, construct=f"{v} {hazard.split(' (')[0]} in `{norm(par, 60)}`", message=f"`{v}` comes from evaluating a lambda per item and is {hazard} without an is_undefined() check: items missing the property collapse, survive or raise depending on which undefined class is configured (Undefined == nil, FalsyStrictUndefined == false, StrictUndefined raises)", what=what)
-    res.floor("C16.R4b", "narrowed uses of lambda results", n_lam, 1)
-
+    # (C16.R4b - "lambda results are narrowed before they are compared/hashed/stringified" - was retired in round 4: with R2 (every
+    # strict hook raises) and R8 (a relaxed hook answers exactly as the default's) an un-narrowed use either raises UndefinedError for a
+    # property that really is missing, or gives the default policy's answer; the rule then fired on a change that keeps the property.)
     # ------------------------------------------------------------------ R5 operand normalisation in the value-semantics helpers
     res.rule("C16.R5", "the comparison helpers (_eq, _lt, _contains) resolve __liquid__() on an operand before Python's ==, <, in can consult that operand's own __eq__ (an undefined operand then compares as nil under every policy that does not raise)")
     ex = prog.mod("liquid2/builtin/expressions.py")
